@@ -104,8 +104,41 @@ def confirm(a):
     return 0
 
 
-def run_one(name, checks, tier):
-    d = os.path.join(VERIF, 'seeded', name)
+def benign_confirm(a):
+    """A property-preserving change: must apply, build and pass the 114 tests; stored under /verif/benign/<name>/."""
+    wt = tempfile.mkdtemp(prefix='benconfirm.', dir='/tmp')
+    os.rmdir(wt)
+    log = {}
+    try:
+        assert sh(['git', '-C', REPO, 'worktree', 'add', '--detach', wt, 'HEAD']).returncode == 0
+        p = sh(['git', '-C', wt, 'apply', os.path.abspath(a.patch)])
+        assert p.returncode == 0, 'patch does not apply: ' + p.stdout
+        p = build(wt, [])
+        assert p.returncode == 0, 'patched build failed: ' + p.stdout[-2000:]
+        p = sh(['ctest', '--test-dir', wt + '/_build', '-j8', '--timeout', '900'])
+        log['ctest_patched'] = p.stdout.strip().splitlines()[-3:]
+        assert p.returncode == 0 and '100% tests passed' in p.stdout and 'out of 114' in p.stdout, 'tests fail with the patch'
+    except AssertionError as e:
+        print('NOT CONFIRMED:', e)
+        return 1
+    finally:
+        sh(['git', '-C', REPO, 'worktree', 'remove', '--force', wt])
+        shutil.rmtree(wt, ignore_errors=True)
+    d = os.path.join(VERIF, 'benign', a.name)
+    os.makedirs(d, exist_ok=True)
+    shutil.copy(a.patch, d + '/patch.diff')
+    if a.notes and os.path.exists(a.notes):
+        shutil.copy(a.notes, d + '/notes.md')
+    meta = {'name': a.name, 'property': a.prop, 'kind': 'property-preserving change (false-alarm probe)', 'confirmed': log,
+            'confirmed_at_repo_commit': sh(['git', '-C', REPO, 'rev-parse', 'HEAD']).stdout.strip(),
+            'source': 'independent sub-agent given only the property text and a scratch worktree', 'checks': {}}
+    json.dump(meta, open(d + '/meta.json', 'w'), indent=1)
+    print('CONFIRMED ->', d)
+    return 0
+
+
+def run_one(name, checks, tier, kind='seeded'):
+    d = os.path.join(VERIF, kind, name)
     meta = json.load(open(d + '/meta.json'))
     checks = checks or [meta['property']]
     assert sh(['git', '-C', REPO, 'status', '--porcelain', '--untracked-files=no']).stdout.strip() == '', '/repo is dirty'
@@ -119,7 +152,7 @@ def run_one(name, checks, tier):
             p = sh([VERIF + '/bin/check', c, '--tier', tier], cwd=VERIF)
             fired = [l for l in p.stdout.splitlines() if l.startswith('VIOLATION')]
             keys = [l.strip() for l in p.stdout.splitlines() if l.startswith('  key=')]
-            meta['detected_by'][c + ':' + tier] = {'exit': p.returncode, 'violations': len(fired), 'first_keys': [k[:200] for k in keys[:3]],
+            meta.setdefault('detected_by' if kind == 'seeded' else 'checks', {})[c + ':' + tier] = {'exit': p.returncode, 'violations': len(fired), 'first_keys': [k[:200] for k in keys[:3]],
                                                    'wall_s': round(time.time() - t0, 1)}
             print('%-28s %s:%s exit=%d violations=%d %s' % (name, c, tier, p.returncode, len(fired), keys[0][:110] if keys else ''))
     finally:
@@ -137,6 +170,9 @@ def main():
     c.add_argument('--cmake', default=''); c.add_argument('--demo-extra', default=''); c.add_argument('--needs', default=''); c.add_argument('--notes', default='')
     r = sub.add_parser('run'); r.add_argument('name'); r.add_argument('--checks', default=''); r.add_argument('--tier', default='quick')
     ra = sub.add_parser('runall'); ra.add_argument('--tier', default='quick'); ra.add_argument('--only-missing', action='store_true')
+    bc = sub.add_parser('benign-confirm'); bc.add_argument('name'); bc.add_argument('prop'); bc.add_argument('patch'); bc.add_argument('--notes', default='')
+    br = sub.add_parser('benign-run'); br.add_argument('name'); br.add_argument('--checks', default=''); br.add_argument('--tier', default='quick')
+    bra = sub.add_parser('benign-runall'); bra.add_argument('--tier', default='quick'); bra.add_argument('--only-missing', action='store_true')
     a = ap.parse_args()
     if a.cmd == 'confirm':
         return confirm(a)
@@ -150,6 +186,18 @@ def main():
             if a.only_missing and json.load(open(os.path.join(VERIF, 'seeded', name, 'meta.json')))['detected_by']:
                 continue
             run_one(name, [], a.tier)
+        return 0
+    if a.cmd == 'benign-confirm':
+        return benign_confirm(a)
+    if a.cmd == 'benign-run':
+        run_one(a.name, [x for x in a.checks.split(',') if x], a.tier, kind='benign')
+        return 0
+    if a.cmd == 'benign-runall':
+        for name in sorted(os.listdir(os.path.join(VERIF, 'benign'))):
+            mp = os.path.join(VERIF, 'benign', name, 'meta.json')
+            if not os.path.exists(mp) or (a.only_missing and json.load(open(mp)).get('checks')):
+                continue
+            run_one(name, [], a.tier, kind='benign')
         return 0
     ap.print_help()
     return 2
